@@ -5,7 +5,7 @@ package main
 // C11: FINDNODES replies (responder) and acceptance of NODES replies (asker).  Lines (concrete inputs ; derived abstract view | observable):
 //
 //	fn <selfkey> <selfip|-> <askerip:port> <h|t|s> <dists> <enrhex:live,...> ; <selfrec> <askerflags> <table> <initdone> | ok <replylen> <tags> / err / nil
-//	   h = handleFindNodes directly, t = through handleTalkRequest, s = handleFindNodes on a table that is still seeding (Table.isInitDone() false)
+//	   h = handleFindNodes directly, t = through handleTalkRequest (t@<ip> / t@-: the sender's record advertises another address / none), s = handleFindNodes on a table that is still seeding (Table.isInitDone() false)
 //	   the table (after the call) is bucket/bucket/... with entries tag:id:flags:port:size:valid:live, "-" for an empty bucket
 //	pn <senderenr> <dists|N> <resphex> <genflags> ; <senderrec> <E | recs tag:id:flags:port:size:valid:gen> | ok <tags> / err / panic
 //	dg <reqidlen> <resplen> | <sizes of the datagrams the asker read from the responder during the request> / unobserved
@@ -90,14 +90,25 @@ func c11execFn(c *Ctx, keyhex, sip, asker, via string, dists []uint, ins []c11in
 	var resp []byte
 	var herr error
 	panicked, pmsg := guard(func() {
-		if via == "t" {
+		if strings.HasPrefix(via, "t") {
 			body, err := req.MarshalSSZ()
 			if err != nil {
 				herr = err
 				return
 			}
 			h := sha256.Sum256([]byte(asker))
-			an := hRecord(nil, enode.ID(h), addr.IP, addr.Port, 1, 0)
+			// the sender's record: normally it advertises the address the packet comes from; "t@<ip>" / "t@-": it advertises
+			// another address / none at all.  What counts for the relay check is the packet's source address.
+			enrIP, enrPort := addr.IP, addr.Port
+			if strings.HasPrefix(via, "t@") {
+				enrPort = 30303
+				if via == "t@-" {
+					enrIP = nil
+				} else {
+					enrIP = net.ParseIP(via[2:])
+				}
+			}
+			an := hRecord(nil, enode.ID(h), enrIP, enrPort, 1, 0)
 			resp = inst.HandleTalkRequest(an, addr, append([]byte{portalwire.FINDNODES}, body...))
 			if resp == nil {
 				herr = fmt.Errorf("nil")
@@ -197,7 +208,7 @@ func c11execPn(c *Ctx, keyhex string, senderEnr []byte, dists []uint, resp []byt
 	default:
 		tags := make([]string, len(out))
 		for i, n := range out {
-			if v, ok := t.lookup(hEnrBytes(n)); ok {
+			if v, ok := t.lookupNode(n); ok {
 				tags[i] = strconv.Itoa(v)
 			} else {
 				tags[i] = "?"
@@ -390,6 +401,14 @@ func (g *c11gen) fnCase() {
 	via := "h"
 	if len(ds) <= 256 && r.Intn(3) == 0 {
 		via = "t"
+		switch r.Intn(4) {
+		case 0: // the sender's record advertises an address of another kind than the packet's source
+			via = "t@" + hIP(r, r.Pick2([]string{"loop", "lan10", "lan192", "pub", "pub", "v6pub", "v6loop"})).String()
+			g.c.Count("fn_talk_enr_address_differs")
+		case 1:
+			via = "t@-"
+			g.c.Count("fn_talk_enr_without_address")
+		}
 	}
 	asker := g.asker()
 	if r.Intn(4) == 0 {
@@ -590,7 +609,7 @@ func c11live(c *Ctx, r *Rng, rounds int) {
 			if err == nil {
 				tags := make([]string, len(nodes))
 				for i, n := range nodes {
-					if v, ok := t.lookup(hEnrBytes(n)); ok {
+					if v, ok := t.lookupNode(n); ok {
 						tags[i] = strconv.Itoa(v)
 					} else {
 						tags[i] = "?"
